@@ -126,6 +126,7 @@ class CatalogMachine(Machine):
                 'slow_weight': rng.pick([0.2, 1.0]),
                 'pre_read': rng.pick([0, 0.2, 0.6, 1.0]),
                 'pristine_ref': rng.chance(0.6),
+                'progress_bar': rng.chance(0.1),
             }
         return {
             'aperture': rng.pick(['circle', 'ellipse', 'rect', 'annulus',
@@ -255,6 +256,8 @@ class CatalogMachine(Machine):
             kw['localbkg_width'] = cfg['localbkg_width']
             kw['apermask_method'] = cfg['apermask_method']
             kw['kron_params'] = tuple(cfg['kron_params'])
+            if cfg.get('progress_bar'):
+                kw['progress_bar'] = True
             if cfg['detcat']:
                 det = SourceCatalog(q(dec(sc['convolved']).copy()), segm,
                                     wcs=kw.get('wcs'),
